@@ -13,7 +13,7 @@ import (
 )
 
 func init() {
-	core.Register(core.Check{ID: "C14", Level: "exploration", Run: func(c *core.Ctx) { runC14(c); historyPass(c, "C14"); reentrancyPass(c, "C14") }})
+	core.Register(core.Check{ID: "C14", Level: "exploration", Run: func(c *core.Ctx) { runC14(c); historyPass(c, "C14"); reentrancyPass(c, "C14"); arch386Pass(c, "C14") }})
 }
 
 // ---- reference (digit by digit, shares nothing with the repository) ----
@@ -200,22 +200,16 @@ func c14JudgeDecode(c *core.Ctx, codec string, src []int8, tag string) (accepted
 		bad("undocumented-error", fmt.Sprintf("error %q is neither invalid-trits nor invalid-length", err))
 		return false
 	}
-	// which errors apply, and the count that goes with each
+	// the earliest fault is the one reported ("invalid group reported first"; b1t8: "check for invalid char before
+	// reporting bad length, since the invalid trit is an earlier problem"), with the bytes decoded before it
 	okErr := false
-	if firstBad >= 0 {
-		if isT && n == firstBad {
-			okErr = true
-		}
-		if isL && len(rem) > 0 && (n == 0 || n == firstBad) {
-			okErr = true // length checked first: nothing (or only the good prefix) decoded
-		}
-	} else { // only the remainder is at fault
-		if isL && (n == nGroups || n == 0) {
-			okErr = true
-		}
-		if isT && remBad && n == nGroups {
-			okErr = true
-		}
+	switch {
+	case firstBad >= 0:
+		okErr = isT && n == firstBad
+	case remBad:
+		okErr = isT && n == nGroups
+	default:
+		okErr = isL && n == nGroups
 	}
 	if !okErr {
 		bad("wrong-error-or-count", fmt.Sprintf("err=%q n=%d; first bad group=%d, whole groups=%d, remainder=%d trits (non-binary in remainder: %v)", err, n, firstBad, nGroups, len(rem), remBad))
@@ -320,6 +314,98 @@ func runC14(c *core.Ctx) {
 		}
 		encStr(ramp)
 		nontriv += 5
+	}
+
+	// --- roomy buffers: dst longer than needed (scratch / block buffers), src a prefix of a longer buffer ---
+	// Encode writes EncodedLen(len(src)) trits and returns that; Decode writes DecodedLen(len(src)) bytes: whatever lies
+	// behind (in dst or behind src) is neither written nor read.
+	for l := 0; l <= 5; l++ {
+		for _, slack := range []int{0, 1, 5, 6, 7, 8, 9, 12, 16, 17, 40, 48, 64} {
+			for shape := 0; shape < 2; shape++ {
+				for _, codec := range []string{"b1t6", "b1t8"} {
+					group := 6
+					if codec == "b1t8" {
+						group = 8
+					}
+					backing := make([]byte, l+9)
+					for i := range backing {
+						backing[i] = byte(0x93 + 29*i + l)
+					}
+					src := backing[:l:l]
+					if shape == 1 {
+						src = backing[:l] // bytes follow behind len(src)
+					}
+					var want []int8
+					for _, b := range src {
+						if group == 6 {
+							g := refB1T6Enc(b)
+							want = append(want, g[:]...)
+						} else {
+							g := refB1T8Enc(b)
+							want = append(want, g[:]...)
+						}
+					}
+					dst := make(trinary.Trits, group*l+slack)
+					for i := range dst {
+						dst[i] = -77
+					}
+					var n int
+					p := core.Catch(func() {
+						if group == 6 {
+							n = b1t6.Encode(dst, src)
+						} else {
+							n = b1t8.Encode(dst, src)
+						}
+					})
+					c.Eval(1)
+					nontriv++
+					cas := map[string]interface{}{"codec": codec, "src": fmt.Sprintf("%x", src), "cap_src": cap(src), "len_dst": len(dst)}
+					key := "C14/" + codec + "/encode/roomy-buffers"
+					switch {
+					case p != nil:
+						c.Violate(key, fmt.Sprintf("Encode of %d bytes (cap %d) into a dst of %d trits panics: %v", l, cap(src), len(dst), p), cas, "", nil)
+					case n != group*l:
+						c.Violate(key, fmt.Sprintf("Encode of %d bytes (cap %d) into a dst of %d trits returns %d, want %d", l, cap(src), len(dst), n, group*l), cas, "", nil)
+					case !bytes.Equal(int8bytes(dst[:n]), int8bytes(want)):
+						c.Violate(key, fmt.Sprintf("Encode of %x into a dst of %d trits writes the wrong trits", src, len(dst)), cas, "", nil)
+					default:
+						for _, x := range dst[n:] {
+							if x != -77 {
+								c.Violate(key, fmt.Sprintf("Encode of %d bytes into a dst of %d trits writes behind EncodedLen", l, len(dst)), cas, "", nil)
+								break
+							}
+						}
+					}
+					// and back: the valid encoding as a prefix of a longer trit buffer, into a longer dst
+					tb := make(trinary.Trits, len(want)+11)
+					for i := range tb {
+						tb[i] = 1
+					}
+					copy(tb, want)
+					tsrc := tb[:len(want):len(want)]
+					if shape == 1 {
+						tsrc = tb[:len(want)]
+					}
+					out := make([]byte, l+slack)
+					for i := range out {
+						out[i] = 0xA5
+					}
+					var err error
+					p = core.Catch(func() {
+						if group == 6 {
+							n, err = b1t6.Decode(out, tsrc)
+						} else {
+							n, err = b1t8.Decode(out, tsrc)
+						}
+					})
+					c.Eval(1)
+					key = "C14/" + codec + "/decode/roomy-buffers"
+					if p != nil || err != nil || n != l || !bytes.Equal(out[:l], backing[:l]) || !bytes.Equal(out[l:], bytes.Repeat([]byte{0xA5}, slack)) {
+						c.Violate(key, fmt.Sprintf("Decode of %d groups (cap %d trits) into a dst of %d bytes: n=%d err=%v panic=%v out=%x", l, cap(tsrc), len(out), n, err, p, out), cas, "", nil)
+					}
+				}
+			}
+		}
 	}
 
 	// --- decode direction, b1t6: all 729 groups alone and at each position of a 3-group string ---
